@@ -2,8 +2,9 @@
    PARTIAL, and said so in MANIFEST.json:
    - PROVED about the models (all inputs, no bound):
      * abnormal termination of the configuration reader (robsd-config, and every helper that parses a
-       configuration): the model flags the assert / __builtin_trap / unbounded-recursion sites of conf.c and
-       conf-*.c in ten places; NONE is reached for any environment, text, -v list and standard input -
+       configuration): the model sets its trap flag in ten places - the source's assert/__builtin_trap sites (counted by the
+       translator, C12_source_trap_sites_accounted), the unbounded recursion, a NULL callback, a NULL dereference, and four
+       fuel artefacts of the model; NONE is reached for any environment, text, -v list and standard input -
        C12_config_no_abort_holds_now.  Nine are dead for every table passing [trap_free]; the tenth
        (${builddir} needed while ${builddir} is being computed) was live in the shipped code - finding D18,
        replayed on the real robsd-config built with ASan+UBSan: stack-overflow, findings/D18_builddir_reentry.md,
@@ -19,10 +20,14 @@
      * the lexer cursor of lexer.c stays inside its buffer (C12_lexer_bounds).
    - OBSERVED only (the installed tools cannot prove it about C): absence of memory errors and undefined
      behaviour in the C code - clang ASan+UBSan builds fed with grammar-derived inputs, their mutations and
-     raw bytes (harness/c12.py), compared with the models where one exists; "promptly" = 5 s per execution. *)
+     raw bytes (harness/c12.py), compared with the models where one exists; "promptly" = 5 s per execution.
+   - REFUTED, with the exact bound: "terminates promptly" read as "with a cost proportional to the input" - the result of an
+     interpolation can hold (V/4)^3 times the template, V = the longest value (C12_interp_output_bound, tight:
+     C12_interp_fanout_exact, C12_interp_fanout_attains_bound; no linear bound: C12_interp_cost_refuted); replayed on the real
+     helpers: 3.3 kB of input run for 14 s (known finding interpolation-fanout-not-prompt, findings/C12_interp_fanout.md). *)
 From Robsd Require Import Safety.LexerDefs Safety.SafetyProofs Safety.ExitProofs Step.StepDefs Step.StepSpec RegressLog.RLSpec
-  Interp.InterpSpec Interp.InterpProofs
-  Conf.ConfDefs Conf.ConfSpec Conf.ConfReject Conf.ConfInst Conf.ConfAbort Conf.ConfAbortInst.
+  Interp.InterpSpec Interp.InterpProofs Interp.InterpCost Conf.ConfCost
+  Conf.ConfDefs Conf.ConfSpec Conf.ConfReject Conf.ConfInst Conf.ConfAbort Conf.ConfAbortInst Conf.ConfPins.
 From RobsdGen Require Import Gen_Interp Gen_Conf.
 Local Open Scope Z_scope.
 
@@ -113,6 +118,19 @@ Theorem C12_trap_free_tables : forall m, trap_free (tables_of m) = true /\ trap_
 Proof. exact (fun m => conj (trap_free_gen m) (trap_free_doc m)). Qed.
 Print Assumptions C12_trap_free_tables.
 
+(* THE ASSERT / TRAP / ABORT SITES OF THE SOURCE: the translator lists every function of conf.c, conf-*.c, conf-token.c, lexer.c,
+   variable-value.c, interpolate.c, if.c, robsd-config.c that contains assert( / __builtin_trap( / abort( with the number of sites.
+   They are exactly the four of [trap_site_table]: two are sites 2, 3 and 6 of the model (dead by C12_config_no_abort_holds_now),
+   two are unreachable by a guard the translator pins (config_interpolate_lookup returns NULL for an INVALID value before its
+   switch; every caller of variable_value_append initialises the value as a LIST first).  A new site, or a second one in a listed
+   function, stops this proof.  The model's other seven trap flags are hazards that are not written as assert/trap in C (NULL
+   dereference in config_default_parallel, unbounded recursion D21, call through a NULL gr_fn) or fuel artefacts of the model. *)
+Theorem C12_source_trap_sites_accounted :
+  src_trap_sites = map (fun x => match x with (f, fn, n, _) => (bs f, bs fn, n) end) trap_site_table
+  /\ modelled_sites = [2; 3; 6]%nat.
+Proof. exact (conj trap_sites_accounted modelled_sites_are). Qed.
+Print Assumptions C12_source_trap_sites_accounted.
+
 (* HISTORICAL PIN for the shipped body: the guard fails on the witness, and it holds whenever robsddir is
    defined without a '$' (every realistic configuration) *)
 Theorem C12_builddir_guard :
@@ -181,6 +199,52 @@ Theorem C12_interpolation_reject_names_line : forall limit env content,
    (fst (interp_cmd limit env content) = 1%N /\ snd (interp_cmd limit env content) = [])).
 Proof. exact fail_closed. Qed.
 Print Assumptions C12_interpolation_reject_names_line.
+
+(* ------------------------------------------------------------------ the cost of interpolation *)
+(* HOW LARGE THE RESULT CAN GET, as a function of the input sizes and the depth limit: with every value at most V >= 4 bytes
+   long (as a C string) and d levels usable below the template (the code: limit 5, d = 3)
+       4^d * |result| <= |template line| * V^d
+   for both values of the IGNORE flag and every environment, cyclic or not *)
+Theorem C12_interp_output_bound : forall ig env V, (4 <= V)%nat ->
+  (forall n v, env n = Some v -> (length (cstr v) <= V)%nat) ->
+  forall d s out, interp (S d) ig env s = IOk out -> (4 ^ d * length out <= length s * V ^ d)%nat.
+Proof. exact output_bound. Qed.
+Print Assumptions C12_interp_output_bound.
+
+(* the same for the interpolation the configuration reader really runs (lookups that define variables and advance the
+   rdomain counter): templates, directory values, the env option of a test; V bounds what a lookup hands back *)
+Theorem C12_config_interp_output_bound : forall E T V d, t_depth_limit T = S (S d) -> (4 <= V)%nat ->
+  (forall early c n c' v, lookup1 E T early c n = (c', Some v) -> (length (cstr v) <= V)%nat) ->
+  (forall c s c' out, cfg_interp E T c s = (c', IOk out) -> (4 ^ d * length out <= length (cstr s) * V ^ d)%nat)
+  /\ (forall c s c' out, cfg_interp_early E T c s = (c', IOk out) -> (4 ^ d * length out <= length (cstr s) * V ^ d)%nat).
+Proof. exact cfg_interp_output_bound. Qed.
+Print Assumptions C12_config_interp_output_bound.
+
+(* THE BOUND IS REACHED: F references in the template and in each value level above a leaf give the leaf F^levels times, from
+   a template of 4F bytes and values of at most max(4F, |leaf|) bytes; the code's limit admits levels = 3 *)
+Theorem C12_interp_fanout_exact : forall F levels leaf, (1 <= levels <= 20)%nat -> ~ In DOLLAR leaf -> ~ In 0%N leaf ->
+  interp (S levels) false (fan_env F levels leaf) (rep F (ref (lvl_name 0))) = IOk (rep (F ^ levels) leaf)
+  /\ length (rep F (ref (lvl_name 0))) = (4 * F)%nat
+  /\ length (rep (F ^ levels) leaf) = (F ^ levels * length leaf)%nat
+  /\ (forall n v, fan_env F levels leaf n = Some v -> (length v <= Nat.max (4 * F) (length leaf))%nat).
+Proof. exact fanout_exact. Qed.
+Print Assumptions C12_interp_fanout_exact.
+
+Theorem C12_interp_fanout_attains_bound : forall F, (1 <= F)%nat ->
+  let leaf := rep (4 * F) [120%N] in
+  exists out, interp 4 false (fan_env F 3 leaf) (rep F (ref (lvl_name 0))) = IOk out
+              /\ (4 ^ 3 * length out = length (rep F (ref (lvl_name 0))) * (4 * F) ^ 3)%nat.
+Proof. exact fanout_attains_bound. Qed.
+Print Assumptions C12_interp_fanout_attains_bound.
+
+(* full statement (does not hold): the result is at most K times as large as the input, for some constant K.  REFUTED for
+   every K at the code's depth limit: an input of size 4(4K+4) yields more than K times its size *)
+Theorem C12_interp_cost_refuted : forall K : nat, exists env s out (size : nat),
+  interp 4 false env s = IOk out
+  /\ (length s <= size)%nat /\ (forall n v, env n = Some v -> (length v <= size)%nat)
+  /\ (K * size < length out)%nat.
+Proof. exact no_linear_bound. Qed.
+Print Assumptions C12_interp_cost_refuted.
 
 (* non-vacuity: a cursor walk with ungetc at offset 0 and getc past the end *)
 Example C12_example :
